@@ -294,7 +294,8 @@ WoffDir(dir, at, stored, tables) ==
 \* zform = [hdr |-> one of ZlibHeaders, split |-> BOOLEAN]: the streams' header bytes, and whether a table of two or
 \* more bytes is cut into two stored blocks (after its first byte).
 \* ext: "none" | "meta" (an extended-metadata block, itself a zlib stream, follows the table data on a 4-byte boundary)
-\*      | "metapriv" (metadata and a private block).  `real`: totalSfntSize and a font version are filled in.
+\*      | "metapriv" (metadata and a private block) | "priv" (a private block and no metadata: metaOffset = metaLength
+\*      = metaOrigLength = 0, the private block follows the table data on a 4-byte boundary).  `real`: totalSfntSize and a font version are filled in.
 ZForm0 == [hdr |-> <<120, 1>>, split |-> FALSE]
 MetaXml == <<60, 109, 47, 62>>                      \* "<m/>"
 PrivData == <<80, 82, 73, 86, 33>>
@@ -309,7 +310,7 @@ WriteWoffX(tables, m, order, gaps, zipped, zform, ext, real) ==
       hdr    == 44 + 20 * Len(m.dir)
       lay    == LayBodies(stored, order, gaps, hdr)
       end0   == hdr + Len(lay.bytes)
-      meta   == ZlibStored(MetaXml)
+      meta   == IF ext = "priv" THEN <<>> ELSE ZlibStored(MetaXml)
       pad1   == IF ext = "none" THEN <<>> ELSE Zeros(Pad4(end0))
       metaAt == end0 + Len(pad1)
       pad2   == IF ext = "metapriv" THEN Zeros(Pad4(metaAt + Len(meta))) ELSE <<>>
@@ -317,10 +318,11 @@ WriteWoffX(tables, m, order, gaps, zipped, zform, ext, real) ==
       tail   == CASE ext = "none"     -> <<>>
                   [] ext = "meta"     -> pad1 \o meta
                   [] ext = "metapriv" -> pad1 \o meta \o pad2 \o PrivData
+                  [] ext = "priv"     -> pad1 \o PrivData
   IN MagicWOFF \o m.flavor \o U32(end0 + Len(tail)) \o U16(Len(m.dir)) \o U16(0)
      \o (IF real THEN U32(12 + 16 * Len(m.dir) + SumPadded(m.dir, tables)) \o U16(2) \o U16(7) ELSE U32(0) \o U16(1) \o U16(0))
-     \o (IF ext = "none" THEN U32(0) \o U32(0) \o U32(0) ELSE U32(metaAt) \o U32(Len(meta)) \o U32(Len(MetaXml)))
-     \o (IF ext = "metapriv" THEN U32(privAt) \o U32(Len(PrivData)) ELSE U32(0) \o U32(0))
+     \o (IF ext \in {"none", "priv"} THEN U32(0) \o U32(0) \o U32(0) ELSE U32(metaAt) \o U32(Len(meta)) \o U32(Len(MetaXml)))
+     \o (IF ext \in {"metapriv", "priv"} THEN U32(privAt) \o U32(Len(PrivData)) ELSE U32(0) \o U32(0))
      \o WoffDir(m.dir, lay.at, stored, tables) \o lay.bytes \o tail
 
 WriteWoff(tables, m, order, gaps, zipped) == WriteWoffX(tables, m, order, gaps, zipped, ZForm0, "none", FALSE)
